@@ -1,2 +1,538 @@
 #!/usr/bin/env python3
-print("ok")
+"""Translator: /repo/**/*.rs  ->  /verif/lean/BlockCiphers/Gen/*.lean  (run on every check).
+
+It translates the *declarative / straight-line* parts of the code (DESIGN §4.1):
+  G1  integer table literals (const/static arrays)                         -> Gen/Tables.lean
+  G3a key-length guards of the `new_from_slice` overrides                  -> Gen/Decls.lean
+  G3b Debug / AlgorithmName impls: literal pieces, whether the body reads `self`
+  G3c cipher structs: fields, and which of them the Drop impl wipes under feature "zeroize"
+  G4  inventory of panic-capable sites (plain arithmetic, indexing, unwrap/expect/assert)  -> Gen/Sites.lean
+
+A file is rewritten only if its content changed.  An extraction that no longer matches is printed as
+`BROKEN <what>` (the check then treats the dependent obligation as broken, DESIGN §5).
+"""
+import os
+import re
+import sys
+
+REPO = os.environ.get("VERIF_REPO", "/repo")
+OUT = os.path.join(os.path.dirname(os.path.dirname(os.path.abspath(__file__))), "lean", "BlockCiphers", "Gen")
+CRATES = ["aes", "aria", "belt-block", "blowfish", "camellia", "cast5", "cast6", "des", "gift", "idea",
+          "kuznyechik", "magma", "rc2", "rc5", "serpent", "sm4", "speck", "threefish", "twofish", "xtea"]
+broken = []
+
+
+def strip_comments(s):
+    out = []
+    i, n = 0, len(s)
+    while i < n:
+        c = s[i]
+        if s.startswith("//", i):
+            j = s.find("\n", i)
+            i = n if j < 0 else j
+        elif s.startswith("/*", i):
+            depth, i = 1, i + 2
+            while i < n and depth:
+                if s.startswith("/*", i):
+                    depth += 1
+                    i += 2
+                elif s.startswith("*/", i):
+                    depth -= 1
+                    i += 2
+                else:
+                    i += 1
+        elif c == '"':
+            j = i + 1
+            while j < n and s[j] != '"':
+                j += 2 if s[j] == "\\" else 1
+            out.append(s[i:j + 1])
+            i = j + 1
+        elif c == "'" and i + 2 < n and (s[i + 2] == "'" or (s[i + 1] == "\\" and s.find("'", i + 2) - i <= 4)):
+            j = s.find("'", i + 2 if s[i + 1] != "\\" else i + 3)
+            out.append(s[i:j + 1])
+            i = j + 1
+        else:
+            out.append(c)
+            i += 1
+    return "".join(out)
+
+
+def block_at(s, i):
+    """s[i] == '{' -> index just after the matching '}' (strings respected)"""
+    depth, n = 0, len(s)
+    while i < n:
+        c = s[i]
+        if c == '"':
+            i += 1
+            while i < n and s[i] != '"':
+                i += 2 if s[i] == "\\" else 1
+        elif c == "{":
+            depth += 1
+        elif c == "}":
+            depth -= 1
+            if depth == 0:
+                return i + 1
+        i += 1
+    return n
+
+
+def rs_files(crate):
+    res = []
+    for dp, dn, fn in os.walk(os.path.join(REPO, crate, "src")):
+        for f in sorted(fn):
+            if f.endswith(".rs") and not f.startswith("test") and f != "tests.rs":
+                res.append(os.path.join(dp, f))
+    return sorted(res)
+
+
+def lean_str(s):
+    return '"' + s.replace("\\", "\\\\").replace('"', '\\"') + '"'
+
+
+def ident(s):
+    return re.sub(r"[^A-Za-z0-9_]", "_", s)
+
+
+# ---------------------------------------------------------------------------------------------
+# G3b Debug / AlgorithmName
+def extract_fmt_impls(crate, path, src):
+    res = []
+    for m in re.finditer(r"impl\s*(<[^{;]*?>)?\s*(?:core::)?(?:fmt::)?(Debug|AlgorithmName)\s+for\s+([^{]+?)\s*(?:where[^{]*)?\{", src):
+        kind, ty = m.group(2), re.sub(r"\s+", " ", m.group(3).strip())
+        end = block_at(src, m.end() - 1)
+        body = src[m.end():end - 1]
+        fm = re.search(r"fn\s+(fmt|write_alg_name)\s*\(([^)]*)\)[^{]*\{", body)
+        if not fm:
+            broken.append(f"fmt-body {crate} {ty} {kind}")
+            continue
+        bend = block_at(body, fm.end() - 1)
+        fbody = body[fm.end():bend - 1]
+        reads_self = bool(re.search(r"\bself\b", fbody))
+        lits = re.findall(r'"((?:[^"\\]|\\.)*)"', fbody)
+        res.append({"crate": crate, "file": os.path.relpath(path, REPO), "kind": kind, "type": ty,
+                    "reads_self": reads_self, "literals": lits,
+                    "uses_stringify": "stringify!" in fbody, "uses_type_name": "type_name" in fbody,
+                    "unsigned_args": re.findall(r"<\s*(\w+)\s+as\s+Unsigned\s*>", fbody)})
+    return res
+
+
+# ---------------------------------------------------------------------------------------------
+# G3a key-length guards
+def translate_guard(cond):
+    """Rust boolean over key.len() -> Lean Bool expression over n (the REJECT condition)"""
+    c = cond.strip()
+    c = re.sub(r"\bkey\s*\.\s*len\s*\(\s*\)", "n", c)
+    c = re.sub(r"\bkey\s*\.\s*is_empty\s*\(\s*\)", "(n == 0)", c)
+    m = re.fullmatch(r"!\s*\[([0-9,\s]+)\]\s*\.\s*contains\s*\(\s*&\s*n\s*\)", c)
+    if m:
+        xs = [x.strip() for x in m.group(1).split(",") if x.strip()]
+        return "!(" + " || ".join(f"n == {x}" for x in xs) + ")"
+    if not re.fullmatch(r"[n0-9\s<>=!|&()]+", c):
+        return None
+    c = c.replace("!=", " ≠ ")
+    c = re.sub(r"(?<![<>=!≠])=(?!=)", "=", c)
+    toks = re.split(r"(\|\||&&)", c)
+    parts = []
+    for t in toks:
+        t = t.strip()
+        if t == "||":
+            parts.append("||")
+        elif t == "&&":
+            parts.append("&&")
+        else:
+            mm = re.fullmatch(r"\(?\s*(n|\d+)\s*(<=|>=|<|>|==|≠)\s*(n|\d+)\s*\)?", t)
+            if not mm:
+                mm2 = re.fullmatch(r"\(n == 0\)", t)
+                if mm2:
+                    parts.append("(n == 0)")
+                    continue
+                return None
+            a, op, b = mm.groups()
+            if op == "≠":
+                parts.append(f"(!({a} == {b}))")
+            else:
+                parts.append(f"(decide ({a} {op.replace('==', '=')} {b}))")
+    return " ".join(parts)
+
+
+def extract_guards(crate, path, src):
+    res = []
+    for m in re.finditer(r"fn\s+new_from_slice\s*\(\s*key\s*:\s*&\s*\[\s*u8\s*\]\s*\)[^{]*\{", src):
+        end = block_at(src, m.end() - 1)
+        body = src[m.end():end - 1]
+        # owning impl type
+        head = src[:m.start()]
+        im = list(re.finditer(r"impl\s*(<[^{;]*?>)?\s*KeyInit\s+for\s+([^{]+?)\s*(?:where[^{]*)?\{", head))
+        ty = re.sub(r"\s+", " ", im[-1].group(2).strip()) if im else "?"
+        body = re.sub(r"^\s*let\s+n\s*=\s*key\s*\.\s*len\s*\(\s*\)\s*;", "", body)
+        g = re.match(r"\s*if\s+(.*?)\s*\{\s*(return\s+)?Err\s*\(\s*InvalidLength\s*\)", body, re.S)
+        if not g:
+            broken.append(f"guard {crate} {ty}")
+            continue
+        lean = translate_guard(g.group(1))
+        if lean is None:
+            broken.append(f"guard-expr {crate} {ty}: {g.group(1)}")
+            continue
+        res.append({"crate": crate, "type": ty, "rust": re.sub(r"\s+", " ", g.group(1)), "reject": lean})
+    return res
+
+
+# ---------------------------------------------------------------------------------------------
+# G3c structs + Drop/zeroize coverage
+def extract_structs(crate, path, src):
+    res = []
+    for m in re.finditer(r"(pub(?:\([a-z]+\))?\s+)?(struct|union)\s+(\$?\w+)\s*(<[^{;(]*>)?\s*(?:where[^{;]*)?\{", src):
+        end = block_at(src, m.end() - 1)
+        body = src[m.end():end - 1]
+        fields = []
+        depth = 0
+        cur = ""
+        for ch in body:
+            if ch in "<([":
+                depth += 1
+            elif ch in ">)]":
+                depth -= 1
+            if ch == "," and depth == 0:
+                fields.append(cur)
+                cur = ""
+            else:
+                cur += ch
+        if cur.strip():
+            fields.append(cur)
+        fl = []
+        for f in fields:
+            f = re.sub(r"#\[[^\]]*\]", "", f).strip()
+            fm = re.match(r"(?:pub(?:\([a-z]+\))?\s+)?(\w+)\s*:\s*(.+)", f, re.S)
+            if fm:
+                fl.append((fm.group(1), re.sub(r"\s+", " ", fm.group(2).strip())))
+        res.append({"crate": crate, "file": os.path.relpath(path, REPO), "kind": m.group(2), "name": m.group(3), "fields": fl,
+                    "pub": (m.group(1) or "").strip() == "pub"})
+    return res
+
+
+def base_type(t):
+    t = t.strip()
+    m = re.fullmatch(r"ManuallyDrop\s*<(.*)>", t)
+    if m:
+        t = m.group(1).strip()
+    t = re.sub(r"<.*>$", "", t).strip()
+    return t.split("::")[-1].strip()
+
+
+ALIASES = {}
+
+
+def collect_aliases(crate, src):
+    for m in re.finditer(r"pub\s+type\s+(\w+)\s*=\s*([^;]+);", src):
+        ALIASES[(crate, m.group(1))] = base_type(re.sub(r"\s+", " ", m.group(2)))
+
+
+def extract_keyinits(crate, path, src):
+    res = []
+    for m in re.finditer(r"impl\s*(<[^{;]*?>)?\s*(?:cipher::)?KeyInit\s+for\s+([^{]+?)\s*(?:where[^{]*)?\{", src):
+        res.append((crate, os.path.relpath(path, REPO), base_type(re.sub(r"\s+", " ", m.group(2).strip()))))
+    return res
+
+
+def extract_drops(crate, path, src):
+    res = []
+    for m in re.finditer(r"impl\s*(<[^{;]*?>)?\s*Drop\s+for\s+([^{]+?)\s*(?:where[^{]*)?\{", src):
+        ty = re.sub(r"\s+", " ", m.group(2).strip())
+        end = block_at(src, m.end() - 1)
+        body = src[m.end():end - 1]
+        # is the whole impl cfg-gated?
+        pre = src[max(0, m.start() - 120):m.start()]
+        impl_gated = bool(re.search(r'#\[cfg\(feature\s*=\s*"zeroize"\)\]\s*$', pre))
+        wiped = set()
+        whole = False
+        for z in re.finditer(r"self\s*\.\s*(\w+)\s*(?:\.\s*\w+\s*)*\.\s*zeroize\s*\(\s*\)", body):
+            wiped.add(z.group(1))
+        for z in re.finditer(r"Zeroize::zeroize\s*\(\s*&mut\s+self\s*\.\s*(\w+)", body):
+            wiped.add(z.group(1))
+        for z in re.finditer(r"zeroize_flat_type\s*\(\s*(&mut\s+self\s*\.\s*(\w+)|self)", body):
+            if z.group(2):
+                wiped.add(z.group(2))
+            else:
+                whole = True
+        # ManuallyDrop::drop of union arms delegates to the arm's Drop
+        deleg = set(re.findall(r"ManuallyDrop::drop\s*\(\s*&mut\s+self\s*\.\s*(\w+)\s*\.\s*(\w+)", body))
+        gated = bool(re.search(r'cfg\(\s*(?:all\(\s*)?feature\s*=\s*"zeroize"\s*\)', body)) or impl_gated
+        cfgs = re.findall(r'cfg\(([^)]*)\)', body)
+        res.append({"crate": crate, "file": os.path.relpath(path, REPO), "type": ty, "wiped": sorted(wiped), "whole": whole,
+                    "delegates": sorted(f"{a}.{b}" for a, b in deleg), "cfg_zeroize": gated,
+                    "cfgs": [re.sub(r"\s+", " ", c) for c in cfgs]})
+    return res
+
+
+# ---------------------------------------------------------------------------------------------
+# G1 tables
+INT_RE = re.compile(r"(?<![\w.])(0x[0-9a-fA-F_]+|0b[01_]+|0o[0-7_]+|[0-9][0-9_]*)(?:_?(u8|u16|u32|u64|u128|usize|i32|i64))?(?![\w.])")
+
+
+def extract_tables(crate, path, src):
+    """const/static NAME: [..] = [ ... ];  -> flat list of ints + declared dims"""
+    res = []
+    for m in re.finditer(r"(?:pub(?:\([a-z]+\))?\s+)?(?:const|static)\s+(\w+)\s*:\s*&?\s*(?=\[)", src):
+        name = m.group(1)
+        # balanced type
+        depth, k = 0, m.end()
+        while k < len(src):
+            if src[k] == "[":
+                depth += 1
+            elif src[k] == "]":
+                depth -= 1
+                if depth == 0:
+                    break
+            k += 1
+        ty = re.sub(r"\s+", "", src[m.end():k + 1])
+        em_ = re.match(r"\s*=\s*&?\s*(?:\w+!\s*)?", src[k + 1:])
+        if not em_:
+            continue
+        j = k + 1 + em_.end()
+        if j >= len(src) or src[j] != "[":
+            continue
+        depth, k = 0, j
+        while k < len(src):
+            if src[k] == "[":
+                depth += 1
+            elif src[k] == "]":
+                depth -= 1
+                if depth == 0:
+                    break
+            k += 1
+        lit = src[j:k + 1]
+        if re.search(r"[A-Za-z_]\w*\s*\(|;\s*\d", lit):  # function calls / repeat expressions: not a pure literal
+            if not re.fullmatch(r"[\[\]\s,0-9a-fA-Fxob_ui]*", lit):
+                continue
+        if re.search(r"[g-zG-Z]", re.sub(r"0x[0-9a-fA-F_]+|u8|u16|u32|u64|u128|usize", "", lit)):
+            continue
+        vals = [int(v.replace("_", ""), 0) for v, _ in INT_RE.findall(lit)]
+        if not vals:
+            continue
+        em = re.search(r"\[(?:\[)*\s*(u8|u16|u32|u64|u128|usize)", ty)
+        width = {"u8": 8, "u16": 16, "u32": 32, "u64": 64, "u128": 128, "usize": 64}.get(em.group(1) if em else "", 0)
+        if not width:
+            continue
+        res.append({"crate": crate, "file": os.path.relpath(path, REPO), "name": name, "type": ty, "width": width, "vals": vals})
+    return res
+
+
+def extract_alias_tables(crate, path, src):
+    """`const NAME: Alias = [ ... ];` inside `impl Trait for Type` (magma S-boxes) and scalar integer consts"""
+    res = []
+    for m in re.finditer(r"impl\s+(\w+)\s+for\s+(\w+)\s*\{", src):
+        end = block_at(src, m.end() - 1)
+        body = src[m.end():end - 1]
+        for c in re.finditer(r"const\s+(\w+)\s*:\s*(\w+)\s*=\s*\[", body):
+            j = c.end() - 1
+            depth, k = 0, j
+            while k < len(body):
+                if body[k] == "[":
+                    depth += 1
+                elif body[k] == "]":
+                    depth -= 1
+                    if depth == 0:
+                        break
+                k += 1
+            lit = body[j:k + 1]
+            if re.search(r"[g-zG-Z]", re.sub(r"0x[0-9a-fA-F_]+", "", lit)):
+                continue
+            vals = [int(v.replace("_", ""), 0) for v, _ in INT_RE.findall(lit)]
+            res.append({"crate": crate, "file": os.path.relpath(path, REPO), "name": m.group(2) + "_" + c.group(1),
+                        "type": c.group(2), "width": 8, "vals": vals})
+    return res
+
+
+def extract_scalars(crate, path, src):
+    res = []
+    for m in re.finditer(r"(?:pub(?:\([a-z]+\))?\s+)?const\s+(\w+)\s*:\s*(u8|u16|u32|u64|u128|usize)\s*=\s*(0x[0-9a-fA-F_]+|[0-9][0-9_]*)\s*;", src):
+        res.append((crate, os.path.relpath(path, REPO), m.group(1), m.group(2), int(m.group(3).replace("_", ""), 0)))
+    return res
+
+
+# ---------------------------------------------------------------------------------------------
+# G4 sites
+def extract_sites(crate, path, src):
+    """panic-capable sites outside #[cfg(test)] modules, keyed by (crate, file, fn, normalised text)"""
+    s = re.sub(r"#\[cfg\(test\)\]\s*mod\s+\w+\s*\{", "\x00", src)
+    k = s.find("\x00")
+    while k >= 0:
+        # drop the test module
+        j = k
+        depth = 1
+        j += 1
+        while j < len(s) and depth:
+            if s[j] == "{":
+                depth += 1
+            elif s[j] == "}":
+                depth -= 1
+            j += 1
+        s = s[:k] + s[j:]
+        k = s.find("\x00")
+    sites = []
+    for fm in re.finditer(r"fn\s+(\w+)\s*(?:<[^({]*>)?\s*\(", s):
+        b = s.find("{", fm.end())
+        semi = s.find(";", fm.end())
+        if b < 0 or (0 <= semi < b):
+            continue
+        end = block_at(s, b)
+        body = s[b:end]
+        fname = fm.group(1)
+        for line in body.split("\n"):
+            t = line.strip()
+            if not t:
+                continue
+            kinds = []
+            if re.search(r"\.unwrap\(\)|\.expect\(", t):
+                kinds.append("unwrap")
+            if re.search(r"\b(assert|assert_eq|debug_assert|debug_assert_eq|unreachable|panic)!", t):
+                kinds.append("assert")
+            tt = re.sub(r'"(?:[^"\\]|\\.)*"', '""', t)
+            tt = re.sub(r"->|=>|&&|\|\||<=|>=|==|!=|::<|&mut|\*mut|\*const|\.\.=?|<<=|>>=", " ", tt)
+            tt2 = re.sub(r"<[A-Za-z_][\w:<>, ]*>", " ", tt)
+            if re.search(r"[\w)\]]\s*(\+|-|\*|/|%|<<|>>)=?\s*[\w(]", tt2) and not re.search(r"wrapping_|Wrapping", t):
+                kinds.append("arith")
+            if re.search(r"\w\s*\[[^\]]*[A-Za-z_][^\]]*\]", tt) and not re.match(r"#\[", t):
+                kinds.append("index")
+            for kd in kinds:
+                sites.append({"crate": crate, "file": os.path.relpath(path, REPO), "fn": fname, "kind": kd,
+                              "text": re.sub(r"\s+", " ", t)})
+    return sites
+
+
+# ---------------------------------------------------------------------------------------------
+def write_if_changed(path, content):
+    os.makedirs(os.path.dirname(path), exist_ok=True)
+    if os.path.exists(path) and open(path).read() == content:
+        return False
+    open(path, "w").write(content)
+    return True
+
+
+def main():
+    fmts, guards, structs, drops, tables, sites, scalars, keyinits = [], [], [], [], [], [], [], []
+    for crate in CRATES:
+        for path in rs_files(crate):
+            try:
+                collect_aliases(crate, strip_comments(open(path).read()))
+            except OSError:
+                pass
+    for crate in CRATES:
+        for path in rs_files(crate):
+            try:
+                src = strip_comments(open(path).read())
+            except OSError as e:
+                broken.append(f"read {path}: {e}")
+                continue
+            fmts += extract_fmt_impls(crate, path, src)
+            guards += extract_guards(crate, path, src)
+            structs += extract_structs(crate, path, src)
+            drops += extract_drops(crate, path, src)
+            keyinits += extract_keyinits(crate, path, src)
+            tables += extract_tables(crate, path, src)
+            tables += extract_alias_tables(crate, path, src)
+            scalars += extract_scalars(crate, path, src)
+            sites += extract_sites(crate, path, src)
+
+    # ---- Gen/Decls.lean
+    def b(x):
+        return "true" if x else "false"
+
+    def sl(xs):
+        return "[" + ", ".join(lean_str(x) for x in xs) + "]"
+
+    L = ["import BlockCiphers.Prelude.GenTypes",
+         "/- GENERATED by /verif/translator/translate.py from /repo — do not edit. -/", "namespace BC.Gen", ""]
+    L.append("/-- every `impl Debug` / `impl AlgorithmName` of the workspace -/")
+    L.append("def fmtImpls : List FmtImpl := [")
+    L.append(",\n".join(
+        f"  {{ crate := {lean_str(f['crate'])}, ty := {lean_str(f['type'])}, kind := {lean_str(f['kind'])}, readsSelf := {b(f['reads_self'])}, "
+        f"literals := {sl(f['literals'])}, usesStringify := {b(f['uses_stringify'])}, usesTypeName := {b(f['uses_type_name'])}, "
+        f"unsignedArgs := {sl(f['unsigned_args'])} }}" for f in fmts))
+    L.append("]")
+    L.append("")
+    for g in guards:
+        nm = ident(g["crate"] + "_" + g["type"])
+        L.append(f"/-- `{g['crate']}`: `{g['type']}::new_from_slice` rejects iff `{g['rust']}` -/")
+        L.append(f"def accepts_{nm} (n : Nat) : Bool := !({g['reject']})")
+    L.append("")
+    L.append("/-- (crate, type) pairs whose `new_from_slice` guard was extracted -/")
+    L.append("def guardTypes : List (String × String) := [" + ", ".join(f"({lean_str(g['crate'])}, {lean_str(g['type'])})" for g in guards) + "]")
+    L.append("")
+    L.append("/-- cipher structs/unions -/")
+    L.append("def structs : List StructInfo := [")
+    L.append(",\n".join(
+        f"  {{ crate := {lean_str(s_['crate'])}, file := {lean_str(s_['file'])}, kind := {lean_str(s_['kind'])}, name := {lean_str(s_['name'])}, isPub := {b(s_['pub'])}, "
+        f"fields := [{', '.join('(' + lean_str(a) + ', ' + lean_str(bb) + ', ' + lean_str(base_type(bb)) + ')' for a, bb in s_['fields'])}] }}" for s_ in structs))
+    L.append("]")
+    L.append("")
+    L.append("/-- Drop impls -/")
+    L.append("def drops : List DropInfo := [")
+    L.append(",\n".join(
+        f"  {{ crate := {lean_str(d['crate'])}, file := {lean_str(d['file'])}, ty := {lean_str(d['type'])}, tyBase := {lean_str(base_type(d['type']))}, wiped := {sl(d['wiped'])}, "
+        f"whole := {b(d['whole'])}, delegates := {sl(d['delegates'])}, cfgZeroize := {b(d['cfg_zeroize'])} }}"
+        for d in drops))
+    L.append("]")
+    L.append("")
+    L.append("/-- every `impl KeyInit for T`: (crate, file, base type name) -/")
+    L.append("def keyInits : List (String × String × String) := [" + ", ".join(
+        f"({lean_str(a)}, {lean_str(b_)}, {lean_str(ALIASES.get((a, c), c))})" for a, b_, c in keyinits) + "]")
+    L.append("")
+    L.append("end BC.Gen")
+    write_if_changed(os.path.join(OUT, "Decls.lean"), "\n".join(L) + "\n")
+
+    # ---- Gen/Tables.lean  (one Array per table; names crate_NAME, duplicates get file suffix)
+    T = ["/- GENERATED by /verif/translator/translate.py from /repo — do not edit. -/", "namespace BC.Gen", ""]
+    seen = {}
+    for t in tables:
+        nm = ident(t["crate"].replace("-", "_") + "_" + t["name"])
+        if nm in seen:
+            nm = nm + "_" + ident(os.path.basename(t["file"]).replace(".rs", ""))
+        if nm in seen:
+            continue
+        seen[nm] = True
+        T.append(f"/-- `{t['file']}`: `{t['name']}: {t['type']}` ({len(t['vals'])} entries, flattened row-major) -/")
+        vals = t["vals"]
+        rows = []
+        for i in range(0, len(vals), 16):
+            rows.append("  " + ", ".join(f"0x{v:x}" for v in vals[i:i + 16]))
+        T.append(f"def {nm} : Array Nat := #[\n" + ",\n".join(rows) + "]")
+        T.append("")
+    sseen = set()
+    for (crate, f, name, ty, v) in scalars:
+        nm = ident(crate.replace("-", "_") + "_" + name)
+        if nm in seen or nm in sseen:
+            nm = nm + "_" + ident(os.path.basename(f).replace(".rs", ""))
+        if nm in seen or nm in sseen:
+            continue
+        sseen.add(nm)
+        T.append(f"/-- `{f}`: `{name}: {ty}` -/")
+        T.append(f"def {nm} : Nat := 0x{v:x}")
+    T.append("")
+    T.append("end BC.Gen")
+    write_if_changed(os.path.join(OUT, "Tables.lean"), "\n".join(T) + "\n")
+
+    # ---- Gen/Sites.lean
+    S = ["/- GENERATED by /verif/translator/translate.py from /repo — do not edit. -/", "namespace BC.Gen", "",
+         "/-- panic-capable sites: (crate, file, fn, kind, normalised text) -/",
+         "def sites : List (String × String × String × String × String) := ["]
+    uniq = []
+    seen = set()
+    for s in sites:
+        key = (s["crate"], s["file"], s["fn"], s["kind"], s["text"])
+        if key not in seen:
+            seen.add(key)
+            uniq.append(key)
+    S.append(",\n".join("  (" + ", ".join(lean_str(x) for x in k) + ")" for k in uniq))
+    S.append("]")
+    S.append("")
+    S.append("end BC.Gen")
+    write_if_changed(os.path.join(OUT, "Sites.lean"), "\n".join(S) + "\n")
+
+    for b in broken:
+        print("BROKEN", b)
+    print(f"ok fmt={len(fmts)} guards={len(guards)} structs={len(structs)} drops={len(drops)} tables={len(tables)} sites={len(uniq)}")
+
+
+if __name__ == "__main__":
+    main()
